@@ -108,6 +108,9 @@ def _inlines(children: Any, keep_code_ws: bool = False) -> tuple:
     return tuple(res)
 
 
+_WITH_TIGHT = False
+
+
 def _blocks(children: Any) -> tuple:
     from marko import block
     from marko.ext import footnote
@@ -133,6 +136,7 @@ def _blocks(children: Any) -> tuple:
                     ch.start if ch.ordered else None,
                     tuple(("item", _blocks(it.children)) for it in ch.children),
                 )
+                + ((("tight" if ch.tight else "loose"),) if _WITH_TIGHT else ())
             )
         elif isinstance(ch, gfm.Alert):
             out.append(("alert", ch.alert_type, _blocks(ch.children)))
@@ -176,9 +180,14 @@ def _title(t: Any) -> Any:
     return t
 
 
-def shape(text: str) -> tuple:
+def shape(text: str, with_tight: bool = False) -> tuple:
+    global _WITH_TIGHT
     doc = _parser().parse(text)
-    return ("doc", _blocks(doc.children))
+    _WITH_TIGHT = with_tight
+    try:
+        return ("doc", _blocks(doc.children))
+    finally:
+        _WITH_TIGHT = False
 
 
 def first_diff(a: Any, b: Any, path: str = "") -> str:
